@@ -105,8 +105,10 @@ func checkProgram(ops []wop) (key, msg string) {
 	}
 	in := gio.NewDataInputX(append([]byte{}, got...))
 	var consumed refenc.B
+	vals := make([]interface{}, len(ops))
 	for i, o := range ops {
 		v := o.read(in)
+		vals[i] = v
 		if !bitsEq(v, o.want) {
 			return o.name + ":value", fmt.Sprintf("op %d (%s) read back %s, written %s", i, o.name, short(v), short(o.want))
 		}
@@ -117,6 +119,12 @@ func checkProgram(ops []wop) (key, msg string) {
 	}
 	if in.Available() != 0 {
 		return progName(ops) + ":available", fmt.Sprintf("Available()=%d after the last read", in.Available())
+	}
+	// a value handed to the caller stays what it was: later reads on the same input must not change it
+	for i, o := range ops {
+		if !bitsEq(vals[i], o.want) {
+			return o.name + ":value-changed-by-later-read", fmt.Sprintf("op %d (%s) read back %s correctly, but after the remaining reads the returned value is %s", i, o.name, short(o.want), short(vals[i]))
+		}
 	}
 	return "", ""
 }
